@@ -50,13 +50,13 @@ def run(ctx):
         allcases = c01.collect(r)
         # SyltOrder's universes are always taken whole: effects interleaved with held operands (order) and values that
         # differ per activation, live across a re-entrant call (recdep)
-        whole = [c for c in allcases if c["id"]["h"] in ("order", "recdep")]
+        whole = [c for c in allcases if c["id"]["h"] in ("order", "orderstmt", "recdep", "recdepbig")]
         cases = [c for c in allcases
                  if c["id"]["h"] in ("recl", "recr", "loopclo", "method")
-                 or c["id"]["h"] not in ("order", "recdep") and c["id"]["o"] in DENSE and c["id"]["i"] in DENSE]
+                 or c["id"]["h"] not in ("order", "orderstmt", "recdep", "recdepbig") and c["id"]["o"] in DENSE and c["id"]["i"] in DENSE]
         if tier == "quick":
             cases = cases[::3]
-            whole = [c for k, c in enumerate(whole) if c["id"]["h"] == "order" or c["id"]["pos"] == 0 or k % 2 == 0]
+            whole = [c for k, c in enumerate(whole) if c["id"]["h"] in ("order", "orderstmt", "recdepbig") or c["id"]["pos"] == 0 or k % 2 == 0]
         cases = whole + cases
         ev.set(states=r.distinct, transitions=r.generated, universe_total=len(allcases))
         if len(cases) < 1000:
